@@ -119,7 +119,7 @@ Ltac fin :=
 Lemma Inv1_weffect s w s' : Inv1 s -> weffect c s w s' -> Inv1 s'.
 Proof.
   intros HI He w' k. specialize (HI w' k) as H0.
-  destruct He as [i a t rest Hsrc Hc Hb | Hsrc Hc | i Hsrc Hc Hb Hcl | ctl' Hcn
+  destruct He as [i a t rest Hsrc Hc Hb | Hsrc Hc | i Hsrc Hc Hb Hcl | ctl' Hcn Hdue Hsl Hsls
                  | eof a k0 v rest Hc Hs Hcl | eof k0 t r rest Hc Hb | dropped Hp Hnd Hnr Hnc Hwhy | eof a k0 v rest Hc Hs Hcl].
   - (* take from input *)
     destruct (Nat.eq_dec w' w) as [->|Hw].
